@@ -526,6 +526,8 @@ class Char(String[_P], Generic[_P]):
 
     def __set__(self, obj: _P, value: Union[str, ctypes.c_char]):
         if isinstance(value, ctypes.c_char):
+            if _VALIDATION_ENABLED.get():
+                self.validate_one(value)
             setattr(obj, self._private_name, value)
         else:
             super().__set__(obj, value)
@@ -542,6 +544,8 @@ class Char(String[_P], Generic[_P]):
         """
 
         if isinstance(value, self._ctype):
+            if not value.value.isascii():
+                raise TypeError(f"Expected {value} to only contain valid ascii points")
             return
 
         if not isinstance(value, str):
